@@ -44,6 +44,7 @@ func runC02(c *Ctx) {
 	ruleRouteAuthenticatorsBuilt(c, "R02.6")
 	ruleRoutableAPIDelegates(c, "R02.2", "Authorizer", "AuthenticatorsFor")
 	ruleAuthenticatorsByDefinitionName(c, "R02.2")
+	ruleBasicAlwaysAsksCallback(c, "R02.3")
 	// the scopes a satisfied alternative hands to the handler are the union of ALL its schemes' scopes: the helper that
 	// builds the union visits every entry of every list (a duplicate is skipped, never a reason to stop)
 	if su := c.P.FnOpt("rt/middleware.stringSliceUnion"); su != nil {
